@@ -425,6 +425,7 @@ static iwrc _rollforward_exl(struct iwal *wal, IWFS_EXT *extf, int recover_mode)
 #ifndef _WIN32
   off_t pfsz = IW_ROUNDUP(fsz, iwp_page_size());
   uint8_t *wmm = mmap(0, (size_t) pfsz, PROT_READ, MAP_PRIVATE, wal->fh, 0);
+  uint8_t *wmm_base = wmm;
   #if defined(MADV_SEQUENTIAL) || defined(MADV_DONTFORK)
   int adv = 0;
   #ifdef MADV_SEQUENTIAL
@@ -438,6 +439,7 @@ static iwrc _rollforward_exl(struct iwal *wal, IWFS_EXT *extf, int recover_mode)
 #else
   off_t pfsz = fsz;
   uint8_t *wmm = mmap(0, 0, PROT_READ, MAP_PRIVATE, wal->fh, 0);
+  uint8_t *wmm_base = wmm;
 #endif
   if (wmm == MAP_FAILED) {
     return iwrc_set_errno(IW_ERROR_ERRNO, errno);
@@ -479,6 +481,7 @@ static iwrc _rollforward_exl(struct iwal *wal, IWFS_EXT *extf, int recover_mode)
       // \_rpos
       wmm += rpos;
       fsz -= rpos;
+      fpos -= rpos; // the replay loop below compares fpos with offsets from the new wmm
     }
   } else if (wal->rollforward_offset > 0) {
     if (wal->rollforward_offset >= fsz) {
@@ -600,7 +603,7 @@ finish:
   if (!rc) {
     rc = extf->sync_mmap_unsafe(extf, 0, IWFS_SYNCDEFAULT);
   }
-  munmap(wmm, (size_t) pfsz);
+  munmap(wmm_base, (size_t) pfsz);
   IWRC(extf->remove_mmap_unsafe(extf, 0), rc);
   IWRC(extf->add_mmap_unsafe(extf, 0, SIZE_T_MAX, IWFS_MMAP_PRIVATE), rc);
   if (!rc) {
